@@ -224,3 +224,25 @@ def raise_model(repo, only=None):
                     out.add(rs.exc)
         return sorted(out)
     return mr
+
+
+def scope_funcs(repo, f):
+    """f plus the functions it (transitively) calls that did not exist on the pinned tree (freshly extracted helpers)."""
+    from ..sim import is_new_function
+    cg = repo.callgraph()
+    out = [f]
+    work = [f]
+    while work:
+        g = work.pop()
+        for s in cg.sites.get(g, []):
+            for t in s.targets:
+                if is_new_function(t) and t not in out:
+                    out.append(t)
+                    work.append(t)
+    return out
+
+
+def scope_nodes(repo, f):
+    for g in scope_funcs(repo, f):
+        for n in g.body_nodes():
+            yield g, n
